@@ -219,7 +219,10 @@ MCInit ==
        LET items == IF pos = 1 THEN <<SV, E1(v)>> ELSE IF pos = 2 THEN <<E1(v), SV>> ELSE IF pos = 3 THEN <<E1(v), SV, E2(Simple, v)>> ELSE <<SV2, E1(v), SV2>> IN
        InitWith(MkCase(Field(items, 1, cs, DefP, <<>>, FALSE, <<>>), items, TRUE))
   \* the same alternative twice in one entry (dup: the harness gives both the same texts)
-  \/ \E v \in { Simple, RV(FALSE, 1, TRUE, FALSE, <<>>, <<>>), RV(TRUE, 0, FALSE, FALSE, <<>>, <<>>) }, w \in FewV, third \in BOOLEAN :
+  \* (the last two: same name and version, but the architecture / profile restriction differs - the harness numbers
+  \*  restriction names through the field)
+  \/ \E v \in { Simple, RV(FALSE, 1, TRUE, FALSE, <<>>, <<>>), RV(TRUE, 0, FALSE, FALSE, <<>>, <<>>),
+               RV(FALSE, 4, FALSE, TRUE, <<FALSE>>, <<>>), RV(FALSE, 0, FALSE, FALSE, <<>>, << <<TRUE>> >>) }, w \in FewV, third \in BOOLEAN :
        LET items == IF third THEN <<E2(v, v), E1(w)>> ELSE <<[k |-> "E", vs |-> <<v, w, v>>]>> IN
        InitWith([MkCase(Field(items, 1, DefC, DefP, <<>>, FALSE, <<>>), items, FALSE) EXCEPT !.dup = TRUE])
   \* a version with an epoch whose upstream part contains a colon ("1:2:3")
